@@ -2,7 +2,7 @@
 """usage: keep_seed.py <prop> <k> <srcdir> <check_outcome text>  -> seeded/<prop>-s<k>/ (patch.diff, demo.*, meta.json)"""
 import sys, os, json, shutil, subprocess
 prop, k, src, outcome = sys.argv[1:5]
-dst = os.path.join('/verif/seeded', '%s-s%s' % (prop, k))
+dst = os.path.join('/verif/seeded', '%s-%s%s' % (prop, os.environ.get('SEED_WAVE_LETTER','s'), k))
 os.makedirs(dst, exist_ok=True)
 for f in os.listdir(src):
     if os.path.isfile(os.path.join(src, f)) and os.path.getsize(os.path.join(src, f)) < 200000:
@@ -13,5 +13,6 @@ m['repo_head_when_seeded'] = subprocess.run(['git', '-C', '/repo', 'rev-parse', 
 m['confirmed_by'] = 'tools/confirm_seed.sh (scratch copy of /repo HEAD): demo exits 0 on the clean tree; with patch.diff applied the library builds, the 34 repository tests pass, the demo fails'
 m['what_i_ran'] = 'tools/confirm_seed.sh <dir>; tools/run_seeded.sh %s <dir>/patch.diff' % prop
 m['check_outcome'] = outcome
+if os.environ.get('SEED_WAVE'): m['wave'] = int(os.environ['SEED_WAVE'])
 json.dump(m, open(os.path.join(dst, 'meta.json'), 'w'), indent=1)
 print('kept', dst)
